@@ -425,6 +425,10 @@ func (h *HandlerSet) HandleCheckCoupling(ctx context.Context, request mcp.CallTo
 	req.OutputWriter = io.Discard
 	req.ConfigPath = h.deps.ConfigPath()
 	req.SortBy = domain.SortByCoupling
+	// Left unset so that the [cbo] section of the configuration file applies
+	req.ShowZeros = nil
+	req.IncludeBuiltins = nil
+	req.IncludeImports = nil
 
 	if cfg != nil {
 		req.Recursive = domain.BoolPtr(cfg.Analysis.Recursive)
@@ -440,12 +444,13 @@ func (h *HandlerSet) HandleCheckCoupling(ctx context.Context, request mcp.CallTo
 	cboService := service.NewCBOService()
 	fileReader := service.NewFileReader()
 	formatter := service.NewCBOFormatter()
+	configLoader := service.NewCBOConfigurationLoader()
 
 	useCase := app.NewCBOUseCase(
 		cboService,
 		fileReader,
 		formatter,
-		nil, // CBO config loader is optional
+		configLoader,
 	)
 
 	// Execute analysis
